@@ -32,6 +32,7 @@ func init() {
 type RuleSpec struct {
 	Selector   string            `json:"selector"` // fully qualified method
 	Verb       string            `json:"verb"`     // get | put | post | delete | patch | custom:<kind>
+	ProbeVerb  string            `json:"probe_verb,omitempty"` // kind "*": the verb its probe uses
 	Template   string            `json:"template"`
 	Body       string            `json:"body,omitempty"`
 	RespBody   string            `json:"resp_body,omitempty"`
@@ -504,6 +505,14 @@ func genC16(r *core.Rand, run int) *MuxScenario {
 					}
 				}
 			}
+		case 12: // the rule's own template once more, for every verb (kind "*"), as an additional binding: the other verbs reach the method too
+			if rule.Invalid == "" && rule.Path != "" && !rule.Long && !strings.HasPrefix(rule.Verb, "custom:") && len(rule.Additional) == 0 {
+				pv := "DELETE"
+				if rule.Verb == "delete" {
+					pv = "GET"
+				}
+				rule.Additional = []RuleSpec{{Verb: "custom:*", Template: rule.Template, Path: rule.Path, Want: rule.Want, ProbeVerb: pv}}
+			}
 		case 6: // re-declare the implicit /Service/Method path for the same method
 			rule = RuleSpec{Selector: rule.Selector, Verb: "post", Body: "*", Template: "/" + m.Service + "/" + m.Name, Path: "/" + m.Service + "/" + m.Name, Want: map[string]string{}}
 			switch r.Intn(4) {
@@ -716,8 +725,12 @@ func (m *ruleModel) probes() []ReqSpec {
 		if m.hasLong(serviceOf(b.Selector)) {
 			continue
 		}
+		verb := b.httpMethod()
+		if b.ProbeVerb != "" {
+			verb = b.ProbeVerb
+		}
 		sp := ReqSpec{Proto: "http", Codec: "json", Method: "raw", Weight: 2,
-			Raw: &RawProbe{Verb: b.httpMethod(), Path: b.Path, Selector: b.Selector, Want: b.Want, HasBody: b.Body != ""}}
+			Raw: &RawProbe{Verb: verb, Path: b.Path, Selector: b.Selector, Want: b.Want, HasBody: b.Body != ""}}
 		out = append(out, sp)
 	}
 	for _, cm := range c16Methods {
